@@ -10,14 +10,16 @@
    [LInvalid] means the schedule violates a hypothesis of the liveness theorem (consensus /
    fairness clause of [env_ok]) or reverts the formation block.  No proofs. *)
 From HostdBase Require Import Base.
-From HostdActions Require Import Rows SqlSem Queries Model Proofs Liveness Liveness2 Liveness2G Liveness2R.
+From HostdActions Require Import Rows SqlSem Queries Model Proofs Liveness Liveness2 Liveness2G Liveness1G Liveness2R.
 
 Inductive lop :=
 | LStart (p : params) | LMine (b : blk) | LRevert
 | L2Start (p : params2) | L2Mine (b : blk2) | L2Revert
 (* WP-O: batches and failing actions (Liveness2G.gstep2 on the same world), the two-contract lifecycle (Liveness2R) *)
 | LGMine (b : blk2) (a : pact) | LGRevert (a : pact)
-| LRStart (q : rparams) | LRStep (e : rstep).
+| LRStart (q : rparams) | LRStep (e : rstep)
+(* v1 with passes (Liveness1G.gstep1 on the same world) *)
+| L1GMine (b : blk) (a : pact) | L1GRevert (a : pact).
 
 Inductive lobs :=
 | LNone                                              (* nothing observed at this step *)
@@ -44,12 +46,23 @@ Definition lrow2 (w : world2) : lobs :=
   | _ => LCrashed
   end.
 
-Definition lrowr (w : rworld) : lobs :=
+(* the flag a harness can see for a pass is "a storage proof of the predecessor was handed to the pool /
+   syncer during THIS pass" (the code does not know whether it is still in time, nor what earlier passes
+   did): the attempt with the lag taken as 0, not or-ed with the recorded flag of the position *)
+Definition zero_lag (a : pact) : pact := match a with NoPass => NoPass | Pass ok _ => Pass ok 0 end.
+Definition raw_pass (q : rparams) (w w' : rworld) (e : rstep) : bool :=
+  match e with
+  | RMine _ a | RRevert a =>
+      attempt (rp q) (row2 (pw w')) (tip2 (chain2 (pw w'))) (zero_lag (eff a (pdata w)))
+  | _ => false
+  end.
+
+Definition lrowr (w : rworld) (sent : bool) : lobs :=
   match row2 (pw w), srow w with
   | Ok c, None => LRowR (c2_contract_status c) (is_some (c2_confirmation_index c)) (is_some (c2_resolution_index c))
-                        (hd false (sent2 (pw w))) None (sroots w)
+                        sent None (sroots w)
   | Ok c, Some (Ok s) => LRowR (c2_contract_status c) (is_some (c2_confirmation_index c)) (is_some (c2_resolution_index c))
-                        (hd false (sent2 (pw w))) (Some (c2_contract_status s)) (sroots w)
+                        sent (Some (c2_contract_status s)) (sroots w)
   | _, _ => LCrashed
   end.
 
@@ -69,9 +82,13 @@ Definition lstep (s : lstate) (o : lop) : lstate * lobs :=
       match gstep2 p w (GMine b a) with Some w' => (LS2 p w', lrow2 w') | None => (LS0, LInvalid) end
   | LGRevert a, LS2 p w =>
       match gstep2 p w (GRevert a) with Some w' => (LS2 p w', lrow2 w') | None => (LS0, LInvalid) end
-  | LRStart q, _ => (LSR q (init_rworld q), lrowr (init_rworld q))
+  | L1GMine b a, LS1 p w =>
+      match gstep1 p w (G1Mine b a) with Some w' => (LS1 p w', lrow w') | None => (LS0, LInvalid) end
+  | L1GRevert a, LS1 p w =>
+      match gstep1 p w (G1Revert a) with Some w' => (LS1 p w', lrow w') | None => (LS0, LInvalid) end
+  | LRStart q, _ => (LSR q (init_rworld q), lrowr (init_rworld q) false)
   | LRStep e, LSR q w =>
-      match rstep2 q w e with Some w' => (LSR q w', lrowr w') | None => (LS0, LInvalid) end
+      match rstep2 q w e with Some w' => (LSR q w', lrowr w' (raw_pass q w w' e)) | None => (LS0, LInvalid) end
   | _, _ => (LS0, LInvalid)
   end.
 
